@@ -11,6 +11,8 @@ CLAIMED["C09"]=("checks-before-effects on every entry point whose failure is rep
   "interprocedural write-before-failure analysis over type-checked AST + store effect summaries; cache-context typestate rules", "4/C09")
 CLAIMED["C04"]=("one capped proportion (power x factor / current value incl. unbonding) multiplies every pool and every at-risk undelegation; truncation, original-amount base and clamp; `<` skip class of the height filter and no other use of it; write effects confined to pools/undelegations/share-zeroing; recorded = subtracted; duplicate-ID check before commit; parameter guards dominate",
   "dataflow-shape and comparison-class rules over type-checked AST; store effect summaries; cache-context typestate", "4/C04")
+CLAIMED["C18"]=("per key family: export/import coverage of every live-written family, decode-type and key-constructor agreement between writers, exporters and importers, completeness of import literals, module init order vs cross-module reads",
+  "SSA key-family resolver + store effect summaries over the VTA call graph; sibling agreement over families", "4/C18")
 NA={}
 def main():
     checks=[]
